@@ -115,7 +115,7 @@ func computeUDPv4Checksum(srcIP, dstIP, udpData []byte) uint16 {
 	}
 	result := ^uint16(sum)
 	if result == 0 {
-		return 0
+		return 0xFFFF
 	}
 	return result
 }
